@@ -5,6 +5,7 @@ tod_hour / tod_minute / tod_second / tod_micro / date_ordinal (spec/core.py), an
 through the assumed constructor contracts datetime.time / date.fromordinal (contracts/externals.py)."""
 from pyvc.contracts import target, lemma, R, implies, same
 import spec.core as S
+from pyvc.dsl import is_lib
 
 LW = "fastavro/_logical_writers_py.py"
 LR = "fastavro/_logical_readers_py.py"
@@ -194,3 +195,101 @@ class prepare_fixed_decimal:
     ensures = lambda data, schema, result: (
         implies(not S.is_decimal(data), same(result, data))
         and implies(S.is_decimal(data), same(result, S.int_to_bytes_signed_big(S.UNSCALED(data, schema.get("scale", 0)), schema["size"]))))
+
+
+# ------------------------------------------------------------------ timestamps
+# dt_us(x): microseconds from 0001-01-01T00:00 -- the UTC instant of an aware datetime, the wall-clock reading of a
+# naive one; `epoch` / `epoch_naive` are the module constants of the code itself (1970-01-01T00:00, UTC / naive),
+# whose observer values CPython's datetime computes at verification time (EPOCH_US).
+@target(LW, "prepare_timestamp_millis")
+class prepare_timestamp_millis:
+    """an aware datetime with ANY offset, before or after the epoch, is stored as the number of whole milliseconds
+    from the UTC epoch to its instant (floor: the sub-millisecond part is dropped towards the past)"""
+    types = dict(data="py", schema="py")
+    requires = lambda data: implies(is_lib(data, "datetime.datetime"), S.dt_aware(data))
+    modifies = []
+    lib_arith = True
+    ensures = lambda data, result: (
+        implies(S.is_datetime(data), same(result, (S.dt_us(data) - S.EPOCH_US) // 1000))
+        and implies(not S.is_datetime(data), same(result, data)))
+
+
+@target(LW, "prepare_timestamp_micros")
+class prepare_timestamp_micros:
+    types = dict(data="py", schema="py")
+    requires = lambda data: implies(is_lib(data, "datetime.datetime"), S.dt_aware(data))
+    modifies = []
+    lib_arith = True
+    ensures = lambda data, result: (
+        implies(S.is_datetime(data), same(result, S.dt_us(data) - S.EPOCH_US))
+        and implies(not S.is_datetime(data), same(result, data)))
+
+
+@target(LW, "prepare_local_timestamp_millis")
+class prepare_local_timestamp_millis:
+    """a naive datetime is stored as the milliseconds from 1970-01-01T00:00 to its wall-clock reading"""
+    types = dict(data="py", schema="py")
+    requires = lambda data: implies(is_lib(data, "datetime.datetime"), not S.dt_aware(data))
+    modifies = []
+    lib_arith = True
+    ensures = lambda data, result: (
+        implies(S.is_datetime(data), same(result, (S.dt_us(data) - S.EPOCH_US) // 1000))
+        and implies(not S.is_datetime(data), same(result, data)))
+
+
+@target(LW, "prepare_local_timestamp_micros")
+class prepare_local_timestamp_micros:
+    types = dict(data="py", schema="py")
+    requires = lambda data: implies(is_lib(data, "datetime.datetime"), not S.dt_aware(data))
+    modifies = []
+    lib_arith = True
+    ensures = lambda data, result: (
+        implies(S.is_datetime(data), same(result, S.dt_us(data) - S.EPOCH_US))
+        and implies(not S.is_datetime(data), same(result, data)))
+
+
+@target(LR, "read_timestamp_millis")
+class read_timestamp_millis:
+    """every stored value inside the datetime range comes back as the aware datetime, in UTC, of that instant"""
+    types = dict(data="int", writer_schema="py", reader_schema="py")
+    requires = lambda data: 0 <= S.EPOCH_US + data * 1000 and S.EPOCH_US + data * 1000 <= S.MAX_DT_US
+    modifies = []
+    lib_arith = True
+    returns = "py"
+    ensures = lambda data, result: (
+        S.is_datetime(result) and S.dt_aware(result) and S.dt_offset_us(result) == 0
+        and S.dt_us(result) == S.EPOCH_US + data * 1000)
+
+
+@target(LR, "read_timestamp_micros")
+class read_timestamp_micros:
+    types = dict(data="int", writer_schema="py", reader_schema="py")
+    requires = lambda data: 0 <= S.EPOCH_US + data and S.EPOCH_US + data <= S.MAX_DT_US
+    modifies = []
+    lib_arith = True
+    returns = "py"
+    ensures = lambda data, result: (
+        S.is_datetime(result) and S.dt_aware(result) and S.dt_offset_us(result) == 0
+        and S.dt_us(result) == S.EPOCH_US + data)
+
+
+@target(LR, "read_local_timestamp_millis")
+class read_local_timestamp_millis:
+    types = dict(data="int", writer_schema="py", reader_schema="py")
+    requires = lambda data: 0 <= S.EPOCH_US + data * 1000 and S.EPOCH_US + data * 1000 <= S.MAX_DT_US
+    modifies = []
+    lib_arith = True
+    returns = "py"
+    ensures = lambda data, result: (
+        S.is_datetime(result) and not S.dt_aware(result) and S.dt_us(result) == S.EPOCH_US + data * 1000)
+
+
+@target(LR, "read_local_timestamp_micros")
+class read_local_timestamp_micros:
+    types = dict(data="int", writer_schema="py", reader_schema="py")
+    requires = lambda data: 0 <= S.EPOCH_US + data and S.EPOCH_US + data <= S.MAX_DT_US
+    modifies = []
+    lib_arith = True
+    returns = "py"
+    ensures = lambda data, result: (
+        S.is_datetime(result) and not S.dt_aware(result) and S.dt_us(result) == S.EPOCH_US + data)
